@@ -483,15 +483,24 @@ class AliasInit(FunctionContract):
     MAPS = _alias_maps()
 
     def scenarios(self):
-        return [f'map{i}' for i in range(len(self.MAPS))]
+        return [f'map{i}' for i in range(len(self.MAPS))] + ['subclass-extends-the-aliases-of-an-instantiated-class']
 
     def setup(self, interp, scenario):
-        amap = self.MAPS[int(scenario[3:])]
+        sub = scenario.startswith('subclass')
+        amap = {'a1': 'a2', 'a2': 'Y', 'a3': 'C'} if sub else self.MAPS[int(scenario[3:])]
         e = {'amap': amap, 'parent': []}
 
-        class Al(AliasMixin, _Base):
-            ALIASES = dict(amap)
-            PREFERRED_NAMES = []
+        if sub:
+            class Base_(AliasMixin, _Base):
+                ALIASES = {'a2': 'Y'}
+                PREFERRED_NAMES = []
+
+            class Al(Base_):
+                ALIASES = dict(amap)
+        else:
+            class Al(AliasMixin, _Base):
+                ALIASES = dict(amap)
+                PREFERRED_NAMES = []
         e['cls'] = Al
         obj = SObj(Al, {}, label='instance')
         e['obj'] = obj
@@ -501,6 +510,13 @@ class AliasInit(FunctionContract):
             return None
         interp.registry.set_calls({'fsic.core.models.BaseModel.__init__': parent_init})
         e['span'] = [1, 2, 3]
+        if sub:
+            # history: an instance of the parent class is constructed first (whatever the constructor remembers must not reach the subclass)
+            from pyvc.extract import get_function
+            pobj = SObj(Base_, {}, label='parent-instance')
+            interp.call_function(get_function(self.qualname), [pobj, [1, 2, 3]], {}, self_obj=pobj)
+            e['parent'].clear()
+        e['class_attrs'] = {k: set(vars(k)) for k in Al.__mro__ if k is not object}
         # constructor keywords: one through each alias, one through a variable name
         e['kw'] = {k: object() for k in list(amap)[:2] + ['C']}
         e['inputs'] = {}
@@ -510,6 +526,8 @@ class AliasInit(FunctionContract):
         ctx = interp.ctx
         e = call.entry
         want = _resolve_spec(e['amap'])
+        grown = {k.__name__: sorted(set(vars(k)) - before) for k, before in e['class_attrs'].items() if set(vars(k)) - before}
+        ctx.prove(z3.BoolVal(not grown), 'constructing_an_instance_stores_nothing_on_the_class', 'frame', note=str(grown))
         if out.kind == 'raise':
             ctx.cover('cycle')
             ctx.prove(z3.BoolVal(want is None and exc_class(out.exc) is ValueError), 'ValueError_only_for_a_cycle_of_aliases', 'raises', note=str(e['amap']))
